@@ -1,0 +1,66 @@
+//go:build verif
+
+// Contracts for "unary calls return the handler's value or its error, after its logs"
+// (property C04, pipe transport). Comment-only.
+
+package vgirpc
+
+//@ pure func prio(l LogLevel) int = l == "EXCEPTION" ? 0 : (l == "ERROR" ? 1 : (l == "WARN" ? 2 : (l == "INFO" ? 3 : (l == "DEBUG" ? 4 : (l == "TRACE" ? 5 : 6)))))
+//@ func logLevelPriority
+//@   property C04
+//@   modifies nothing
+//@   ensures [table] result == prio(level)
+
+// ClientLog: a message at or above the requested level is appended after everything emitted
+// before it (which is kept as it was); a message below it changes nothing.
+//
+//@ func (*CallContext).ClientLog
+//@   property C04
+//@   ensures [filtered] prio(level) > prio(old(ctx.LogLevel)) ==> ctx.logs == old(ctx.logs)
+//@   ensures [appended] prio(level) <= prio(old(ctx.LogLevel)) ==> len(ctx.logs) == old(len(ctx.logs)) + 1 &&
+//@       ctx.logs[len(ctx.logs)-1].Level == level && ctx.logs[len(ctx.logs)-1].Message == msg
+//@   ensures [order] prio(level) <= prio(old(ctx.LogLevel)) ==> (forall k int :: 0 <= k && k < old(len(ctx.logs)) ==> ctx.logs[k].Level == old(ctx.logs[k].Level) && ctx.logs[k].Message == old(ctx.logs[k].Message))
+//@ func (*CallContext).drainLogs
+//@   property C04
+//@   ensures [all] result == old(ctx.logs) && len(ctx.logs) == 0
+
+// writeLogBatch / writeErrorBatch: one zero-row batch of the given schema carrying level and
+// message, and the client's request id whenever one was sent.
+//
+//@ func writeLogBatch
+//@   property C04
+//@   at call arrow.NewMetadata assert [levelmsg] len(arg0) == len(arg1) && len(arg0) >= 2 && arg0[0] == MetaLogLevel && arg1[0] == msg.Level && arg0[1] == MetaLogMessage && arg1[1] == msg.Message
+//@   at call arrow.NewMetadata assert [requestid] requestID != "" ==> arg0[len(arg0)-1] == MetaRequestID && arg1[len(arg1)-1] == requestID
+//@   at call array.NewRecordBatchWithMetadata assert [zerorows] arg0 == schema && arg2 == 0 && arg3 == meta
+//@   at call (*ipc.Writer).Write assert [one] arg0 == w
+// (errorKindCarrier.ErrorKind is a getter on the framework's own error types: assumed to write nothing)
+//@ func "errorKindCarrier.ErrorKind" (e)
+//@   modifies nothing
+//@ func writeErrorBatch
+//@   property C04
+//@   at call arrow.NewMetadata assert [exception] len(arg0) == len(arg1) && len(arg0) >= 3 && arg0[0] == MetaLogLevel && arg1[0] == "EXCEPTION" && arg0[1] == MetaLogMessage && arg0[2] == MetaLogExtra && arg1[2] == extraJSON
+//@   at call array.NewRecordBatchWithMetadata assert [zerorows] arg0 == schema && arg2 == 0 && arg3 == meta
+//@   at call (*ipc.Writer).Write assert [one] arg0 == w
+
+// WriteUnaryResponse: every log, in slice order, then the result batch (the only data batch).
+//
+//@ func WriteUnaryResponse
+//@   property C04
+//@   at call writeLogBatch assert [inorder] 0 <= rangeindex + 1 && rangeindex + 1 < len(logs) && arg0 == writer && arg1 == schema && arg4 == requestID
+//@   at call (*ipc.Writer).Write assert [resultlast] arg0 == writer && arg1 == result
+//@ func WriteVoidResponse
+//@   property C04
+//@   at call WriteUnaryResponse assert [void] arg2 == logs && arg3 == batch && arg5 == requestID && nFields(arg1) == 0
+
+// serveUnary: the logs are collected after the handler has returned or panicked (the recovering
+// literal has been left); a failed call answers with those logs, in order, then exactly one
+// exception batch and no result; a successful call answers through WriteUnaryResponse /
+// WriteVoidResponse with the same logs, the declared result schema and the request id.
+//
+//@ func (*Server).serveUnary
+//@   property C04
+//@   at call (*CallContext).drainLogs after (*Server).serveUnary$1 assert [afterhandler] arg0 == callCtx
+//@   at call writeLogBatch assert [errlogs] callErr != nil && 0 <= rangeindex + 1 && rangeindex + 1 < len(logs) && arg1 == info.ResultSchema && arg4 == req.RequestID
+//@   at call writeErrorBatch assert [oneexception] arg2 == callErr && callErr != nil && arg1 == info.ResultSchema && arg4 == req.RequestID
+//@   at call WriteVoidResponse assert [voidok] callErr == nil && info.ResultType == nil && arg1 == logs && arg3 == req.RequestID
+//@   at call WriteUnaryResponse assert [valueok] callErr == nil && arg1 == info.ResultSchema && arg2 == logs && arg5 == req.RequestID
